@@ -44,7 +44,12 @@ SER_FNS = ['n0', 'n1', 'N2', 'N3', 'n6']
 NAMES = {'n0': ['x', 'y', 'z'], 'n1': ['y', 'extra'], 'N2': ['x', 'k'],
          'N3': ['x', 'y'], 'n6': ['x', 'y', 'k']}
 TAGS = ['T0', 'T1', 'U0']
-EVIL = [['builtins', 'eval'], ['builtins', 'exec'], ['os', 'system'],
+# dotted stdlib modules nothing here ever imports: if one of THEIR parents shows
+# up in the import system during a load that the policy refused, something
+# imported behind the policy's back
+WATCHED_TOPS = ('wsgiref', 'xmlrpc')
+EVIL = [['wsgiref.util', 'guess_scheme'], ['xmlrpc.client', 'dumps'],
+        ['builtins', 'eval'], ['builtins', 'exec'], ['os', 'system'],
         ['subprocess', 'call'], ['fsim.stubmod', 'denied_fn'],
         ['no_such_module_xyz', 'f'], ['fsim.stubmod', 'no_such_symbol'],
         ['builtins', '__import__'], ['os.path', 'join']]
@@ -364,6 +369,29 @@ def _resolve(module, symbol):
   return v
 
 
+class ImportWatch:
+  """sys.meta_path observer: records every import the interpreter attempts for
+  the watched packages (whoever asks for it, through whichever API)."""
+
+  def __init__(self):
+    self.seen = []
+
+  def find_spec(self, fullname, path=None, target=None):
+    if fullname.split('.')[0] in WATCHED_TOPS:
+      self.seen.append(fullname)
+    return None
+
+  def __enter__(self):
+    sys.meta_path.insert(0, self)
+    return self
+
+  def __exit__(self, *exc):
+    try:
+      sys.meta_path.remove(self)
+    except ValueError:
+      pass
+
+
 class ImportShim:
   """Stands in for the `importlib` name inside serialization.py."""
 
@@ -373,6 +401,10 @@ class ImportShim:
     self.calls = []
     self.unapproved = []
     self.fired = 0
+
+  def __getattr__(self, name):
+    # everything else the real module offers (importlib.util, ...) stays usable
+    return getattr(importlib, name)
 
   def import_module(self, name):
     self.calls.append(name)
@@ -770,6 +802,8 @@ def run(case):
       shim = ImportShim(pol, fail=fail_map)
       serialization.importlib = shim
       via_zlib = (dmgs[0]['seed'] % 3 == 0)
+      watch = ImportWatch()
+      watch.__enter__()
       try:
         if via_zlib:
           # the flag transport: the (damaged) document packed, then the packed
@@ -795,6 +829,14 @@ def run(case):
         back, raised = None, e
       finally:
         serialization.importlib = real_importlib
+        watch.__exit__()
+      if watch.seen:
+        # the restrictive policy never approves these packages
+        viols.append(V('import-behind-policy',
+                       f'doc #{vi} after {[d["kind"] for d in dmgs[:4]]}: the import '
+                       f'system was asked for {watch.seen[:3]} although the policy '
+                       'refused that module', arm='damaged'))
+        return res
       if shim.fired:
         bump(faults, 'import_fails', shim.fired)
       bump(probes, 'damaged_loads')
